@@ -420,6 +420,8 @@ class Fn:
         if self._defs is None:
             d = {}
             for i, j, dst, rv, line in self.stmts():
+                if "|*" in dst:
+                    continue  # a store through a pointer is not a definition of the pointer local
                 d.setdefault(place_local(dst), []).append((i, "stmt", (dst, rv, line)))
             for c in self.calls():
                 d.setdefault(place_local(c.dest), []).append((c.bb, "call", c))
@@ -874,6 +876,8 @@ def origin(fn, op, depth=0):
     pl = op_place(op) if (isinstance(op, str) and len(op) > 1 and op[1] == ":") else op
     if pl is None:
         return ("unknown", op)
+    while pl.endswith("|*") and pl.count("|") == 1:
+        pl = pl[:-2]
     if "|" in pl:
         # tuple field of a checked-arith result: look through `(_x.0)`
         parts = pl.split("|")
@@ -905,7 +909,10 @@ def origin(fn, op, depth=0):
             return ("named", l)
         return o
     if rv[0] == "ref":
-        return origin(fn, "c:" + rv[2], depth + 1) if "|" not in rv[2] else ("place", rv[2])
+        pl2 = rv[2]
+        while pl2.endswith("|*"):
+            pl2 = pl2[:-2]
+        return origin(fn, "c:" + pl2, depth + 1) if "|" not in pl2 else ("place", rv[2])
     return ("rv", rv, bb)
 
 
